@@ -3,9 +3,11 @@ package simrt
 import (
 	"fmt"
 	"iter"
+	"os"
 	"reflect"
 	"sort"
 	"strconv"
+	"unsafe"
 )
 
 // KeyDescriber returns a deterministic description of a map key (deterministic for a given tape and
@@ -19,8 +21,16 @@ func RegisterKeyDescriber(d KeyDescriber) { describers = append(describers, d) }
 
 type longIDer interface{ LongID() string }
 
-func describe(k any) (string, bool) {
+func describe(k any) (string, bool) { return describeAt(k, 0) }
+
+// Describe exposes the key description to describers that want to compose it.
+func Describe(k any) (string, bool) { return describeAt(k, 1) }
+
+// describeKnown handles basic kinds, registered describers and LongID carriers.
+func describeKnown(k any) (string, bool) {
 	switch x := k.(type) {
+	case nil:
+		return "<nil>", true
 	case string:
 		return x, true
 	case int:
@@ -52,7 +62,14 @@ func describe(k any) (string, bool) {
 		}
 		return l.LongID(), true
 	}
-	return describeReflect(reflect.ValueOf(k), 0)
+	return "", false
+}
+
+func describeAt(k any, depth int) (string, bool) {
+	if d, ok := describeKnown(k); ok {
+		return d, true
+	}
+	return describeReflect(reflect.ValueOf(k), depth)
 }
 
 // fmtInt gives a fixed-width, order-preserving rendering.
@@ -62,9 +79,68 @@ func fmtInt(x int64) string {
 	return "00000000000000000000"[:20-len(s)] + s
 }
 
+// access returns a value through which unexported fields can be read (the value must be addressable
+// or already accessible).
+func access(v reflect.Value) reflect.Value {
+	if v.CanInterface() {
+		return v
+	}
+	if v.CanAddr() {
+		return reflect.NewAt(v.Type(), unsafe.Pointer(v.UnsafeAddr())).Elem()
+	}
+	return v
+}
+
+func describeFields(v reflect.Value, depth int, shallow bool) (string, bool) {
+	// v is an addressable struct
+	out := "{"
+	all := true
+	any1 := false
+	for i := 0; i < v.NumField(); i++ {
+		f := access(v.Field(i))
+		if shallow {
+			switch f.Kind() {
+			case reflect.Map, reflect.Slice, reflect.Chan, reflect.Func, reflect.Struct, reflect.Array, reflect.UnsafePointer:
+				continue
+			}
+		}
+		var d string
+		var ok bool
+		if f.CanInterface() && f.Kind() != reflect.Struct {
+			if f.Kind() == reflect.Interface && f.IsNil() {
+				d, ok = "<nil>", true
+			} else {
+				d, ok = describeDepth(f.Interface(), depth+1)
+			}
+		} else {
+			d, ok = describeReflect(f, depth+1)
+		}
+		if !ok {
+			all = false
+		} else {
+			any1 = true
+		}
+		out += d + "|"
+	}
+	if shallow {
+		return out + "}", any1
+	}
+	return out + "}", all
+}
+
+func describeDepth(k any, depth int) (string, bool) {
+	if depth > 4 {
+		return "", false
+	}
+	return describeAt(k, depth)
+}
+
 func describeReflect(v reflect.Value, depth int) (string, bool) {
 	if !v.IsValid() {
 		return "<nil>", true
+	}
+	if depth > 4 {
+		return "", false
 	}
 	switch v.Kind() {
 	case reflect.String:
@@ -83,51 +159,40 @@ func describeReflect(v reflect.Value, depth int) (string, bool) {
 			return "<nil>", true
 		}
 		if v.CanInterface() {
-			return describe(v.Interface())
+			return describeDepth(v.Interface(), depth+1)
 		}
 		return describeReflect(v.Elem(), depth+1)
-	case reflect.Struct, reflect.Array:
-		if depth > 3 {
-			return "", false
+	case reflect.Struct:
+		c := v
+		if !v.CanAddr() {
+			if !v.CanInterface() {
+				return v.Type().String(), false
+			}
+			c = reflect.New(v.Type()).Elem()
+			c.Set(v)
 		}
-		out := "{"
+		return describeFields(c, depth, false)
+	case reflect.Array:
+		out := "["
 		all := true
-		n := 0
-		if v.Kind() == reflect.Struct {
-			n = v.NumField()
-		} else {
-			n = v.Len()
-		}
-		for i := 0; i < n; i++ {
-			var f reflect.Value
-			if v.Kind() == reflect.Struct {
-				f = v.Field(i)
-			} else {
-				f = v.Index(i)
-			}
-			var d string
-			var ok bool
-			if f.CanInterface() {
-				d, ok = describe(f.Interface())
-			} else {
-				d, ok = describeReflect(f, depth+1)
-			}
-			if !ok {
-				all = false
-			}
+		for i := 0; i < v.Len(); i++ {
+			d, ok := describeReflect(v.Index(i), depth+1)
+			all = all && ok
 			out += d + "|"
 		}
-		return out + "}", all
+		return out + "]", all
 	case reflect.Pointer:
 		if v.IsNil() {
 			return "<nil>", true
 		}
 		if v.CanInterface() {
+			if d, ok := describeKnown(v.Interface()); ok {
+				return d, true
+			}
 			if st, ok := v.Interface().(fmt.Stringer); ok {
 				return v.Type().String() + ":" + safeString(st), true
 			}
 		}
-		// pointer to struct with an integer field that looks like an identifier
 		e := v.Elem()
 		if e.Kind() == reflect.Struct {
 			for _, name := range []string{"number", "id", "ID", "Id", "index"} {
@@ -141,6 +206,8 @@ func describeReflect(v reflect.Value, depth int) (string, bool) {
 					}
 				}
 			}
+			d, ok := describeFields(e, depth, true)
+			return v.Type().String() + d, ok
 		}
 		return v.Type().String(), false
 	}
@@ -160,6 +227,32 @@ func safeString(st fmt.Stringer) (out string) {
 	}()
 	return st.String()
 }
+
+// descriptor caches, one per task: a cache is only ever touched by its own goroutine, so it needs (and
+// creates) no synchronisation.
+var caches [maxTasks]map[any]string
+
+//go:norace
+func taskCache() map[any]string {
+	if !s.active || s.current < 0 {
+		return nil
+	}
+	c := caches[s.current]
+	if c == nil {
+		c = make(map[any]string)
+		caches[s.current] = c
+	}
+	return c
+}
+
+//go:norace
+func resetCaches() {
+	for i := range caches {
+		caches[i] = nil
+	}
+}
+
+var debugTies = os.Getenv("SIMRT_DEBUG_TIES") != ""
 
 type keyed[K any] struct {
 	k K
@@ -218,12 +311,42 @@ func RangeMap[M ~map[K]V, K comparable, V any](site int, m M) iter.Seq2[K, V] {
 		if n == 0 {
 			return
 		}
+		if n == 1 {
+			// nothing to order
+			_, yieldEach, _ := mapSiteInfo(site, 1)
+			for k, v := range m {
+				if yieldEach {
+					Yield(site)
+					if _, ok := m[k]; !ok {
+						return
+					}
+				}
+				yield(k, v)
+				return
+			}
+			return
+		}
 		ks := make([]keyed[K], 0, n)
 		ties := 0
+		cache := taskCache()
 		for k := range m {
-			d, ok := describe(any(k))
+			var d string
+			var ok bool
+			if cache != nil {
+				if d, ok = cache[any(k)]; !ok {
+					d, ok = describe(any(k))
+					if ok {
+						cache[any(k)] = d
+					}
+				}
+			} else {
+				d, ok = describe(any(k))
+			}
 			if !ok {
 				ties++
+				if debugTies {
+					fmt.Fprintf(os.Stderr, "simrt: undescribed key at site %d: %T %s\n", site, k, d)
+				}
 			}
 			ks = append(ks, keyed[K]{k, d})
 		}
@@ -232,6 +355,9 @@ func RangeMap[M ~map[K]V, K comparable, V any](site int, m M) iter.Seq2[K, V] {
 			for i := 1; i < len(ks); i++ {
 				if ks[i].d == ks[i-1].d {
 					ties++
+					if debugTies {
+						fmt.Fprintf(os.Stderr, "simrt: equal key descriptions at site %d: %T %s\n", site, ks[i].k, ks[i].d)
+					}
 				}
 			}
 		}
